@@ -33,10 +33,16 @@ func (k Keeper) OnCollectFee(ctx sdk.Context, pool types.Pool, fee sdk.Coins) er
 	}
 
 	// handling the case, pool does not enough liquidity to swap fees to revenue token when liquidity is being fully removed
+	// pool.PoolAssets shares its backing array with the caller's pool (which the caller stores afterwards):
+	// swap on a copy so that a failed swap, whose store writes are dropped, cannot leave the caller's
+	// pool balances modified; on success hand the new balances back to the caller's pool
+	poolCopy := pool
+	poolCopy.PoolAssets = append([]types.PoolAsset(nil), pool.PoolAssets...)
 	cacheCtx, write := ctx.CacheContext()
-	err = k.SwapFeesToRevenueToken(cacheCtx, pool, revenueAmount)
+	err = k.SwapFeesToRevenueToken(cacheCtx, poolCopy, revenueAmount)
 	if err == nil {
 		write()
+		copy(pool.PoolAssets, poolCopy.PoolAssets)
 	}
 	return nil
 }
